@@ -450,6 +450,7 @@ pub fn slice_window2<T>(s: &[T], w: usize) -> (r: &[T])
 //@@ end
 
 //@@ fn file=fe2o3-amqp/src/session/mod.rs name=consecutive_chunk_indices
+//@@ attr #[verifier::loop_isolation(false)]
 //@@ shape loops=while
 //@@ attr #[verifier::spinoff_prover]
 //@@ param delivery_ids : &[u32]
